@@ -1,7 +1,7 @@
 """C18 — real-time polling (the poller's own discipline; delivery order over all upload histories is not decided)."""
 from nx import sym, loops, panics
 from nx.spec import *
-from rules import common, c16
+from rules import common, c16, c17, c05
 
 LEVEL = "other"
 R = "nexrad_data::aws::realtime::"
@@ -46,7 +46,8 @@ def run(chk, tier):
                        "the cursor to that identifier; every failing send/lookup/download is an error return; the loop is left normally only by the stop signal, "
                        "returning Ok; the first delivery is the download of the last listed chunk of the latest volume. try_resiliently is a bounded loop "
                        "0..attempts returning at the first success, with constant budgets at its call sites and interval-discharged backoff arithmetic. The "
-                       "successor function's checks (C16) are re-run here because delivery order rests on them.")
+                       "successor function's checks (C16) are re-run here because delivery order rests on them, and so are download_chunk's (C17) and "
+                       "Chunk::new's (C05) because payload identity and labelling rest on them.")
     chk.trust("await model; mpsc Sender::send fails only when the receiver is gone; Receiver::try_recv does not block")
     fn = prog.fn(POLL + "::{closure#0}")
     if fn is None:
@@ -142,6 +143,16 @@ def run(chk, tier):
     first_delivery(chk, prog, fn, lp, names, site, tx)
     retry_helper(chk, prog)
     c16.successor_only(chk, prog)
+    # "every delivered payload is byte-identical to the uploaded object and labelled with its own key and upload time": what
+    # is delivered is what download_chunk returns, so its obligations (C17: key requested, bytes unchanged, Last-Modified
+    # parsed, identifier asked for) and the chunk constructor's (C05: every "AR2..."/"....BZ..." payload is accepted and
+    # wrapped unchanged) are obligations of this property too
+    T = c17.templates(chk, common.witness())
+    if T is not None:
+        c17.download_object(chk, prog, T[3])
+        c17.last_modified(chk, prog)
+        c17.realtime_download(chk, prog, T[0])
+    c05.chunk_sniffing(chk, prog)
 
 
 def first_delivery(chk, prog, fn, lp, names, site, tx):
